@@ -21,7 +21,7 @@ def pamb(h):
 
 def tie(ctx):
     kbad, kstats = kernel_selfcheck.run(ctx.seed, ctx.budget(2000, 40000))
-    keep = ("hyd", "lambda", "medium", "derived")
+    keep = ("hyd", "lambda", "medium", "derived", "gasResults", "gasPressures", "gasVel", "realDensity")
     kbad = [b for b in kbad if b.get("kernel", "").startswith(keep)]
     ks = {k: v for k, v in kstats.items() if k.startswith(keep)}
     return {"cases": sum(v["inputs"] for v in ks.values()), "disagreements": kbad, "stats": ks}
